@@ -49,6 +49,64 @@ pub struct Fd {
     pub blocking_reads: u32,
 }
 
+/// In LR mode the fill level of one designated descriptor slot lives in a
+/// round-versioned shim word (set up with `share_fill`).
+pub static mut LR_FILL_FD: usize = usize::MAX;
+pub static mut LR_FILL_VAR: usize = usize::MAX;
+pub fn share_fill(slot: usize) {
+    unsafe {
+        LR_FILL_FD = slot;
+        LR_FILL_VAR = vshim::lr_new(K::fds[slot].fill as u64);
+    }
+}
+pub fn fget(slot: usize) -> u32 {
+    unsafe {
+        if vshim::is_lr() && slot == LR_FILL_FD {
+            vshim::lr_rd(LR_FILL_VAR) as u32
+        } else {
+            K::fds[slot].fill
+        }
+    }
+}
+pub fn fset(slot: usize, v: u32) {
+    unsafe {
+        if vshim::is_lr() && slot == LR_FILL_FD {
+            vshim::lr_wr(LR_FILL_VAR, v as u64)
+        } else {
+            K::fds[slot].fill = v
+        }
+    }
+}
+
+/// In LR mode the handler word of one designated signal's disposition is a
+/// round-versioned shim word (two threads: one registers, one receives).
+pub static mut LR_DISP_SIG: usize = usize::MAX;
+pub static mut LR_DISP_VAR: usize = usize::MAX;
+pub fn share_disp(sig: c_int) {
+    unsafe {
+        LR_DISP_SIG = sig as usize;
+        LR_DISP_VAR = vshim::lr_new(K::disp[sig as usize].handler as u64);
+    }
+}
+pub fn handler_of(sig: usize) -> usize {
+    unsafe {
+        if vshim::is_lr() && sig == LR_DISP_SIG {
+            vshim::lr_rd(LR_DISP_VAR) as usize
+        } else {
+            K::disp[sig].handler
+        }
+    }
+}
+fn set_handler(sig: usize, h: usize) {
+    unsafe {
+        if vshim::is_lr() && sig == LR_DISP_SIG {
+            vshim::lr_wr(LR_DISP_VAR, h as u64)
+        } else {
+            K::disp[sig].handler = h
+        }
+    }
+}
+
 pub const FD0: Fd = Fd {
     kind: FdKind::Invalid,
     nonblock: false,
@@ -136,6 +194,7 @@ pub unsafe fn sys_sigaction(sig: c_int, act: *const sigaction, old: *mut sigacti
     K::sigaction_calls += 1;
     if !act.is_null() {
         K::sigaction_sets += 1;
+        (vshim::HOOKS.state_change)(vshim::CH_SIGACTION);
     }
     if kernel_rejects(sig, !act.is_null()) {
         set_errno(EINVAL);
@@ -144,12 +203,12 @@ pub unsafe fn sys_sigaction(sig: c_int, act: *const sigaction, old: *mut sigacti
     let s = sig as usize;
     if !old.is_null() {
         let mut o: sigaction = core::mem::zeroed();
-        o.sa_sigaction = K::disp[s].handler;
+        o.sa_sigaction = handler_of(s);
         o.sa_flags = K::disp[s].flags;
         *old = o;
     }
     if !act.is_null() {
-        K::disp[s].handler = (*act).sa_sigaction;
+        set_handler(s, (*act).sa_sigaction);
         K::disp[s].flags = (*act).sa_flags;
         K::installs[s] += 1;
     }
@@ -180,20 +239,23 @@ pub unsafe fn sys_sigprocmask(how: c_int, set: *const sigset_t, old: *mut sigset
 }
 
 unsafe fn flush_pending() {
-    let mut s = 1;
-    while s < NSIG as c_int {
-        let bit = 1u64 << (s - 1);
-        if K::pending & bit != 0 && K::blocked & bit == 0 {
-            K::pending &= !bit;
+    // deliver what became unblocked (harnesses have at most two signals pending)
+    let mut rounds = 0;
+    while rounds < 2 {
+        let m = K::pending & !K::blocked;
+        if m != 0 {
+            let s = m.trailing_zeros() as c_int + 1;
+            K::pending &= !(1u64 << (s - 1));
             act_on(s);
         }
-        s += 1;
+        rounds += 1;
     }
 }
 
 /// What the kernel does with an unblocked signal `s` (1..=64).
 unsafe fn act_on(s: c_int) {
-    let d = K::disp[s as usize];
+    let mut d = K::disp[s as usize];
+    d.handler = handler_of(s as usize);
     if d.handler == SIG_IGN && s != SIGKILL && s != SIGSTOP {
         return;
     }
@@ -266,6 +328,7 @@ pub unsafe fn sys_write(fd: c_int, _buf: *const c_void, len: size_t, flags: Opti
         return 0;
     }
     f.write_calls += 1;
+    (vshim::HOOKS.state_change)(vshim::CH_WRITE);
     if len != 1 {
         f.bad_len_writes += 1;
     }
@@ -277,7 +340,7 @@ pub unsafe fn sys_write(fd: c_int, _buf: *const c_void, len: size_t, flags: Opti
     let full = match f.kind {
         FdKind::Dgram => f.msgs >= f.cap,
         FdKind::Regular => false,
-        _ => f.fill >= f.cap,
+        _ => fget(fd as usize) >= f.cap,
     };
     if f.kind != FdKind::Regular && !nowait {
         // Whether or not it is full right now, this call is allowed to sleep.
@@ -294,14 +357,15 @@ pub unsafe fn sys_write(fd: c_int, _buf: *const c_void, len: size_t, flags: Opti
     match f.kind {
         FdKind::Dgram => {
             f.msgs += 1;
-            f.fill += len as u32;
+            fset(fd as usize, fget(fd as usize) + len as u32);
             len as ssize_t
         }
         FdKind::Regular => len as ssize_t,
         _ => {
-            let room = f.cap - f.fill;
+            let cur = fget(fd as usize);
+            let room = f.cap - cur;
             let n = if (len as u32) < room { len as u32 } else { room };
-            f.fill += n;
+            fset(fd as usize, cur + n);
             n as ssize_t
         }
     }
@@ -329,7 +393,7 @@ pub unsafe fn sys_read(fd: c_int, _buf: *mut c_void, len: size_t, flags: Option<
             Some(fl) => fl & MSG_DONTWAIT != 0,
             None => false,
         };
-    if K::fds[slot].fill == 0 && K::fds[slot].msgs == 0 {
+    if fget(slot) == 0 && K::fds[slot].msgs == 0 {
         if nowait {
             set_errno(EAGAIN);
             return -1;
@@ -338,7 +402,7 @@ pub unsafe fn sys_read(fd: c_int, _buf: *mut c_void, len: size_t, flags: Option<
         if !(vshim::HOOKS.block)(fd) {
             vshim::assume(false);
         }
-        if K::fds[slot].fill == 0 {
+        if fget(slot) == 0 {
             // woken without data (peer closed): end of file
             return 0;
         }
@@ -347,14 +411,15 @@ pub unsafe fn sys_read(fd: c_int, _buf: *mut c_void, len: size_t, flags: Option<
     if f.kind == FdKind::Dgram {
         // one datagram per call; we only queue 0- and 1-byte datagrams
         f.msgs -= 1;
-        if f.fill > 0 {
-            f.fill -= 1;
+        if fget(slot) > 0 {
+            fset(slot, fget(slot) - 1);
             return 1;
         }
         return 0;
     }
-    let n = if (len as u32) < f.fill { len as u32 } else { f.fill };
-    f.fill -= n;
+    let cur = fget(slot);
+    let n = if (len as u32) < cur { len as u32 } else { cur };
+    fset(slot, cur - n);
     n as ssize_t
 }
 
@@ -364,6 +429,7 @@ pub unsafe fn sys_close(fd: c_int) -> c_int {
         set_errno(EBADF);
         return -1;
     }
+    (vshim::HOOKS.state_change)(vshim::CH_CLOSE);
     let f = &mut K::fds[fd as usize];
     f.closes += 1;
     if f.kind == FdKind::Invalid {
@@ -392,6 +458,7 @@ pub unsafe fn sys_fcntl(fd: c_int, cmd: c_int, arg: c_int) -> c_int {
         return fl;
     }
     if cmd == F_SETFL {
+        (vshim::HOOKS.state_change)(vshim::CH_FCNTL);
         f.nonblock = arg & O_NONBLOCK != 0;
         f.cloexec_flag_set = arg & O_CLOEXEC != 0;
         return 0;
